@@ -573,6 +573,31 @@ func (h *Hist) step() {
 			}
 		}
 		h.X(tz, "commit", "-m", msg())
+	case "commit-inject":
+		// a message whose second line looks like a reflog record naming a blob / tree / unknown id:
+		// harmless as long as a reflog record is one line and reset validates what it is given
+		var ids []string
+		for id, x := range h.obs.Objects {
+			if x.Kind != "commit" {
+				ids = append(ids, id)
+			}
+		}
+		sort.Strings(ids)
+		id := strings.Repeat("ab", 20)
+		if len(ids) > 0 && r.chance(3, 4) {
+			id = ids[r.intn(len(ids))]
+		}
+		if d, ok := stagedDiff(h.obs); ok && len(d) == 0 {
+			h.W("write", h.randPath(), h.content())
+			h.X(tz, "add", ".")
+		}
+		h.X(tz, "commit", "-m", "subject\n"+strings.Repeat("0", 40)+" "+id+" N <n@example.com> 1 +0000\tcommit: injected")
+		if h.cfg.PreReset {
+			h.inProbe = true
+			sampleReflog(h)
+			h.inProbe = false
+		}
+		h.X(tz, "reset", r.pick([]string{"--soft", "--mixed"}), fmt.Sprintf("HEAD@{%d}", r.intn(3)))
 	case "branch":
 		n := r.pick(branchNames)
 		h.X(tz, "branch", n)
@@ -713,6 +738,8 @@ func (h *Hist) junk(tz int) {
 		{"rm", "a(b"}, {"restore", "a(b"}, {"restore", "--staged", "a[b"}, {"add", "no such file"}, {"rm", "*"}, {"restore", "+"}, {"rm", "."},
 		{"branch", "a/b"}, {"branch", ".."}, {"branch", "../../HEAD"}, {"switch", "-c", "x/y"}, {"branch", "-r", "../x"}, {"branch", "-d", "../x"},
 		{"frobnicate"}, {"status", "extra"}, {"reflog", "extra"},
+		{"switch", "-c", "a: b"}, {"branch", "x: y"}, {"branch", "-r", "n: m"}, {"switch", "-c", "sp ace"}, {"branch", "tab\tname"}, {"switch", "-c", "ref: refs/heads/x"},
+		{"switch", "a: b"}, {"switch", "sp ace"}, {"branch", "-d", "x: y"}, {"branch", "ünï"}, {"switch", "-c", "(paren"}, {"branch", "nl\nname"},
 	}
 	h.X(tz, cands[r.intn(len(cands))]...)
 }
